@@ -343,7 +343,8 @@ package gorm
 //@   loop 1 exit-do protectedMap = ref(sdb.Stmts)
 //@   ensures mutex-free-on-return: held == 0
 //@   ensures every-entry-gets-a-closer: spawned - old(spawned) == ranged - old(ranged)
-//@   ensures shared-map-is-emptied-not-replaced: ref(sdb.Stmts) == protectedMap && forallkey(k, sdb.Stmts, !has(sdb.Stmts, k))
+//@   ensures shared-map-is-not-replaced: ref(sdb.Stmts) == protectedMap
+//@   ensures shared-map-is-emptied: forallkey(k, sdb.Stmts, !has(sdb.Stmts, k))
 
 //@ site closer-waits-for-preparation
 //@   match call database/sql.(*Stmt).Close
